@@ -373,9 +373,17 @@ def scale_jobs(ctx):
                 d = k_regimes(m)
                 picks = [pick(d, prefer), pick(d, rng.choice(["full", "mid", "thousands", "2e5", "1e5"]))]
                 for reg, k in (picks if (not q or t == both) else picks[:1]):
-                    if fn == "makeringlatticeCIJ" and rng.random() < 0.3:
-                        k = min(m, 2 * n * max(1, k // (2 * n)))        # K on a band boundary: nothing to remove
+                    if fn == "makeringlatticeCIJ" and rng.random() < 0.5:
+                        # K on a band boundary (nothing to remove), one more (a new band for a single
+                        # connection), one less (a single removal)
+                        k = max(0, min(m, 2 * n * max(1, k // (2 * n)) + rng.choice([-1, 0, 1])))
                     add(reg, fn=fn, n=n, k=k)
+        # --- ring lattice, K one below / on / one above a band boundary beyond 10^5 (K within 1e-5 K of
+        # the threshold at which the fill loop stops)
+        n = rng.randint(331, 450)
+        b = 2 * n * rng.randint(100000 // (2 * n) + 1, (n - 1) // 2 - 1)
+        for dk in (-1, 0, 1):
+            add("band-boundary%+d" % dk, fn="makeringlatticeCIJ", n=n, k=b + dk)
         # --- toeplitz: (template width s, largest density for which no template entry exceeds 1)
         for n, prefer in zip(node_counts() + [rng.randint(331, 450) for _ in range(4)] + [rng.randint(449, 450)],
                              ["tiny", "2^15", "2^16", "1e5", "1e5", "1e5", "1e5", "1e5", "2e5"]):
